@@ -303,6 +303,21 @@ func (g *c12) binaries(n int) {
 	}
 }
 
+// the edit puts a JSON null into a "siblings" array
+func nullSibling(p jpath, rep any) bool {
+	if rep == nil && len(p) >= 2 && p[len(p)-2] == "siblings" {
+		return true
+	}
+	if arr, ok := rep.([]any); ok && len(p) >= 1 && p[len(p)-1] == "siblings" {
+		for _, x := range arr {
+			if x == nil {
+				return true
+			}
+		}
+	}
+	return false
+}
+
 func minInt(a, b int) int {
 	if a < b {
 		return a
@@ -461,7 +476,7 @@ func (g *c12) verifiers(n int) {
 			rep := replacements[r.Intn(len(replacements))]
 			doc := edit(deepCopy(baseObj), p, func(any) (any, bool) { return deepCopy(rep), false })
 			tg := []string{"verify", "replaced"}
-			if rep == nil && len(p) >= 2 && p[len(p)-2] == "siblings" {
+			if nullSibling(p, rep) {
 				tg = append(tg, "shape:null-sibling")
 			}
 			g.probe("verify-replaced", J{"at": fmt.Sprint(p), "by": fmt.Sprintf("%v", rep)}, tg, verify(doc))
@@ -536,7 +551,11 @@ func (g *c12) decoders(n int) {
 	for i := 0; i < 6*n; i++ {
 		p := paths[r.Intn(len(paths))]
 		rep := replacements[r.Intn(len(replacements))]
-		g.probe("diddoc-replaced", J{"at": fmt.Sprint(p), "by": fmt.Sprintf("%v", rep)}, []string{"decode"}, dec(edit(deepCopy(base), p, func(any) (any, bool) { return deepCopy(rep), false })))
+		tg := []string{"decode"}
+		if nullSibling(p, rep) {
+			tg = append(tg, "shape:null-sibling")
+		}
+		g.probe("diddoc-replaced", J{"at": fmt.Sprint(p), "by": fmt.Sprintf("%v", rep)}, tg, dec(edit(deepCopy(base), p, func(any) (any, bool) { return deepCopy(rep), false })))
 	}
 	// raw texts for the custom decoders
 	for _, txt := range []string{``, `null`, `5`, `"x"`, `[]`, `{}`, `{"type":5}`, `[null]`, `[5]`, `{"proof":null}`, `{"proof":[null]}`, `{"proof":5}`, `{"proof":{"type":"BJJSignature2021"}}`,
